@@ -107,9 +107,10 @@ def _run(ctx, fails, case, fn, *a, **k):
 
 def check(case, ctx):
     kind = case["kind"]
-    W = np.array(case["W"])
+    W = gen.layout(np.array(case["W"]), case.get("order"))
     n = len(W)
     fails = []
+    ctx.label("layout:" + str(case.get("order", "C")))
     directed = not np.array_equal(W, W.T)
     off = ~np.eye(n, dtype=bool)
     ctx.label("kind:" + kind)
@@ -169,7 +170,9 @@ def check(case, ctx):
         if D is not None:
             _cmp("distance_bin", D, Dref, case, fails, "distance")
             if n >= 2:
-                cp = _run(ctx, fails, case, bct.charpath, np.asarray(D, dtype=float))
+                Dm = np.asarray(D, dtype=float)
+                _run(ctx, fails, case, bct.charpath, Dm, include_infinite=False)     # history: an earlier call with other flags
+                cp = _run(ctx, fails, case, bct.charpath, Dm)                          # ... must not change what this call reports
                 if cp is not None:
                     _scalar("charpath", cp[0], lam_ref, case, fails, "lambda")
                     _scalar("charpath", cp[1], eff_ref, case, fails, "efficiency")
@@ -321,11 +324,12 @@ def cases(draw, nmax, kinds):
     n = len(A)
     pr = [(i, j) for (i, j) in gen.pairs(n, directed) if A[i, j]]
     m = len(pr)
+    order = draw(st.sampled_from(gen.ORDERS))
     if kind == "bin":
         W = A.astype(float) if draw(st.integers(0, 3)) else A.astype(np.int64)
-        return {"kind": kind, "W": W}
+        return {"kind": kind, "W": W, "order": order}
     W = np.zeros((n, n))
-    case = {"kind": kind}
+    case = {"kind": kind, "order": order}
     if kind == "len":
         if draw(st.booleans()):
             vals = [gen.TIE[k] for k in draw(st.lists(st.integers(0, 2), min_size=m, max_size=m))]
@@ -369,7 +373,7 @@ def _space(tier):
 
 def _exh_cases(tier, lo, hi):
     for n, d, A, k in _space(tier).range(lo, hi):
-        yield {"kind": "bin", "W": A.astype(float)}
+        yield {"kind": "bin", "W": A.astype(float), "order": gen.ORDERS[k % len(gen.ORDERS)]}
 
 
 _WSP = {}
@@ -395,7 +399,7 @@ def _w_cases(tier, lo, hi):
         for sp in _wspace(tier):
             if k < sp.total:
                 n, d, W = sp.at(k)
-                yield {"kind": "len", "W": W}
+                yield {"kind": "len", "W": W, "order": gen.ORDERS[k % len(gen.ORDERS)]}
                 break
             k -= sp.total
 
